@@ -292,7 +292,8 @@ func runC04(r *mc.Run) {
 		return ti, fmt.Sprintf("q%d/svn1=%#x", qi, q.tee[1])
 	}
 
-	var rawEdit func([]byte) []byte // when set: edits the JSON text before signing; only "accepted => algorithm accepts" is judged
+	var sibling func(body []byte) []byte // when set: adds UNSIGNED members next to the signed one in the response body
+	var rawEdit func([]byte) []byte      // when set: edits the JSON text before signing; only "accepted => algorithm accepts" is judged
 	eval := func(id string, qi int, ti world.TcbInfo, nontrivial bool) {
 		q := quotes[qi]
 		w := q.w
@@ -307,7 +308,11 @@ func runC04(r *mc.Run) {
 			}
 		}
 		g := w.Getter.Clone()
-		g.Responses[world.URLTcbInfo(hexs(w.Plat.FMSPC))] = world.Response{Header: w.TcbHdr, Body: world.SignedBody("tcbInfo", raw, w.PKI.TcbKey)}
+		respBody := world.SignedBody("tcbInfo", raw, w.PKI.TcbKey)
+		if sibling != nil {
+			respBody = sibling(respBody)
+		}
+		g.Responses[world.URLTcbInfo(hexs(w.Plat.FMSPC))] = world.Response{Header: w.TcbHdr, Body: respBody}
 		now := w.Now
 		opts := &verify.Options{GetCollateral: true, Getter: g, Now: &now, TrustedRoots: w.Roots}
 		qm, perr := safeToProto(q.raw)
@@ -416,11 +421,26 @@ func runC04(r *mc.Run) {
 		r.Explore(exName, exBound, func(c *mc.Ctx) {
 			qi := c.Free("svn1", len(svn1s))
 			ti, tag := build(c, qi, nil)
+			// unsigned members spelled like the signed one, supplying what the signed document may lack (module
+			// identities that accept anything): the verdict follows the signed member alone
+			sib := c.Choose("unsigned-sibling", 4)
 			id := "tcb/" + tag + "/" + c.ID() + world.LogTag()
 			if !r.Want(id) {
 				return
 			}
+			if sib != 0 {
+				q := quotes[qi]
+				extra := fmt.Sprintf(`%q:{"tdxModuleIdentities":[{"id":"TDX_%02x","mrsigner":%q,"attributes":"0000000000000000","attributesMask":"FFFFFFFFFFFFFFFF","tcbLevels":[{"tcb":{"isvsvn":0},"tcbDate":"2028-01-01T00:00:00Z","tcbStatus":"UpToDate"}]}]}`,
+					[]string{"", "TcbInfo", "tcbinfo", "TCBINFO"}[sib], q.tee[1], strings.Repeat("00", 48))
+				sibling = func(body []byte) []byte {
+					if sib == 2 { // after the signature
+						return append(append(append([]byte{}, body[:len(body)-1]...), ','), []byte(extra+"}")...)
+					}
+					return append([]byte("{"+extra+","), body[1:]...)
+				}
+			}
 			eval(id, qi, ti, c.Deviations() > 0)
+			sibling = nil
 		})
 	}
 	world.SetLogLevel(0)
